@@ -8,6 +8,7 @@ import I18n.Driver.Date
 import I18n.Driver.Locale
 import I18n.Driver.PyFmt
 import I18n.Driver.Charset
+import I18n.Driver.Cli
 /- Line-protocol driver: `<model> <op> <args…>` per line on stdin, one canonical line per op on stdout. -/
 open I18n.Driver
 
@@ -23,6 +24,7 @@ def step (line : String) : String :=
   | "locale" :: op :: args => Locale.handle op args
   | "pyfmt" :: op :: args => PyFmt.handle op args
   | "charset" :: op :: args => Charset.handle op args
+  | "cli" :: op :: args => Cli.handle op args
   | _ => "bad-op"
 
 partial def loop (h : IO.FS.Stream) (out : IO.FS.Stream) : IO Unit := do
